@@ -215,6 +215,8 @@ def units(tier):
     _wrap(us, "C14.StorageBinList.Read_forgets_previous_cells", MD.unit_storagebin_read)
     from props import c14_components as CC
     _wrap(us, "C14.list_components.every_defined_reactant_contributes", CC.unit_list_components)
+    from props import c14_numkey as NKY
+    wrap("C14.read_number_description.one_number_is_the_range_n-n", NKY.unit_number_description)
     return us
 
 
